@@ -8,7 +8,7 @@ import time
 
 sys.path.insert(0, os.path.dirname(os.path.abspath(__file__)))
 import vlib
-from engines import hs_server, hs_client, tcp_stream, codec, pending
+from engines import hs_server, hs_client, tcp_stream, codec, pending, srvlife
 
 # property -> list of (engine module, operator prefixes that decide it)
 PROPS = {
@@ -24,10 +24,16 @@ PROPS = {
     "C11": [(codec.C11, ["C11_", "X_Harness"])],
     "C05": [(pending, ["C05_"])],
     "C12": [(tcp_stream.C12, ["C12_"])],
+    "C18": [(srvlife, ["C18_"])],
     "C16": [(tcp_stream.C16, ["C16_"])],
 }
 
 ASSUME = {
+    "server-life": [
+        "TLC checks the model exhaustively for 1 listener, 2 connections, queue capacity 1 (thorough: 2 listeners); the schedules replayed on the real Server are drawn from the model by seeded TLC simulation, so the real-code side samples the schedule space",
+        "gates sit at verif hooks outside critical sections; which arm a Go select takes when several are ready cannot be forced, so a schedule is followed as far as the real goroutines allow and the verdict comes from the monitor on what really happened",
+        "in-process listeners (no 5 s read polls); TLC, CommunityModules Json and the Go runtime are trusted",
+    ],
     "pending": [
         "TLC explores every interleaving of the lock regions for the stated instance (2-3 callers, two sharing an id, 2 responses incl. unknown ids, one cancellable caller); schedules in which both arms of the select are ready are left to the free runs",
         "the gates sit between the lock regions (outside the locks), so a forced schedule is an execution the Go scheduler could produce by itself",
